@@ -5,6 +5,8 @@ def stages(tier):
     return [
         {"name": "reval", "cmd": "reval", "args": ["-prop", "C06"], "check": "Check.Proxy.check_reval_c06",
          "timeout": 300, "timeout_thorough": 1800, "search_budget": 60},
+        {"name": "rangecond", "cmd": "relayx", "args": ["-prop", "C06x"], "check": "client validators on Range requests never reach the origin and never renew an older stored entry (direct)",
+         "timeout": 300, "timeout_thorough": 600},
     ]
 
 
